@@ -9,6 +9,10 @@ C09XnExp.lean (antiderivative of x^n e^{-αx}), C09Terms.lean (real value of a c
 (b) `integral_xn_exp_minus_x` as coded now (M's `xnExpTerms`) is ∫_a^b x^n e^{-α|x|} dx for all n, α > 0 and all
     rational a ≤ b (one side or straddling 0); the polynomial of the code before 673f3df is not.
 (c) the HEM closed forms (M's `hemTerms`) are ∫_a^b x^k · density for k = 0, 1, 2 and all rational a ≤ b.
+(d) VG `integrate_against_xn` (M's `vgXnTerms`, n ≥ 1) is ∫_a^b x^n · density; Merton mass / x / x² and VG mass on one
+    side of 0 equal the integrals of their densities for every function `erf` / `E1` satisfying the stated derivative
+    hypothesis (a theorem parameter, never an axiom; both hypotheses are shown satisfiable).
+    Half-lines [a,∞), a ≥ 0 and (−∞,b], b ≤ 0 for (b) and (c) as improper integrals.  CGMY: not proved.
 Real end points: the real-analysis statements behind (b), (c) hold for real a, b, α (lemma files); here they are
 specialised to the rationals that floats are.
 -/
